@@ -38,6 +38,7 @@ type walCase struct {
 	Compression int     `json:"compression"`
 	Ops         []walOp `json:"ops"`
 	NoClose     bool    `json:"no_close,omitempty"`
+	DirectIO    bool    `json:"direct_io,omitempty"` // block aligned writer (O_DIRECT itself is a declared stub); no sync appends by design
 }
 
 func walGen(r *rand.Rand, thorough bool) walCase {
@@ -51,6 +52,12 @@ func walGen(r *rand.Rand, thorough bool) walCase {
 		n = 1 + r.Intn(30)
 	}
 	syncBias := r.Intn(4) // 0: mostly async ... 3: mostly sync
+	if r.Intn(8) == 0 {
+		c.DirectIO = true
+		c.BufSize = pick(r, 4096, 8192)
+		c.MaxFileSize = pick(r, uint64(5000), 20000, 1<<20)
+		syncBias = 0
+	}
 	for i := 0; i < n; i++ {
 		x := r.Intn(10)
 		switch {
@@ -103,6 +110,9 @@ func walOptions(dir string, c walCase) (*wal.Options, error) {
 		wal.BasePath(dir),
 		wal.MaximumWalFileSizeBytes(c.MaxFileSize),
 		wal.WriterFactory(func(path string) (recordio.WriterI, error) {
+			if c.DirectIO {
+				return recordio.NewFileWriter(recordio.Path(path), recordio.BufferSizeBytes(c.BufSize), recordio.CompressionType(c.Compression), recordio.DirectIO())
+			}
 			return recordio.NewFileWriter(recordio.Path(path), recordio.BufferSizeBytes(c.BufSize), recordio.CompressionType(c.Compression))
 		}),
 		wal.ReaderFactory(func(path string) (recordio.ReaderI, error) {
